@@ -81,11 +81,13 @@ func SchedCorpus(tier, fontPath3 string) []SchedCase {
 // Histories.
 
 type c17Action struct {
-	Input int
-	Opt   bool
-	Font  int
-	Sw    int
-	Cmd   int
+	Input  int
+	Opt    bool
+	Font   int
+	Sw     int
+	Cmd    int
+	FontID int // 0: default font of the config file, 1: -f g
+	MaxLen int // 0: from the font config, 1: -l 9
 }
 
 var c17Inputs = []string{
@@ -100,8 +102,8 @@ var c17Inputs = []string{
 	"const K = 4\nscript S {\n\tx(K)\n\twhile (var(V) < K) {\n\t\tbreak\n\t}\n}\nmart Mt {\n\tI1\n}\nmapscripts Map {\n\tT1 {\n\t\tmsgbox(\"m\")\n\t}\n}\n",
 }
 
-const c17FontA = `{"defaultFontId":"f","fonts":{"f":{"widths":{"default":2," ":1},"maxLineLength":14,"numLines":2,"cursorOverlapWidth":0}}}`
-const c17FontB = `{"defaultFontId":"f","fonts":{"f":{"widths":{"default":3," ":2},"maxLineLength":30,"numLines":3,"cursorOverlapWidth":2}}}`
+const c17FontA = `{"defaultFontId":"f","fonts":{"f":{"widths":{"default":2," ":1},"maxLineLength":14,"numLines":2,"cursorOverlapWidth":0},"g":{"widths":{"default":1," ":1},"maxLineLength":12,"numLines":3,"cursorOverlapWidth":1}}}`
+const c17FontB = `{"defaultFontId":"f","fonts":{"f":{"widths":{"default":3," ":2},"maxLineLength":30,"numLines":3,"cursorOverlapWidth":2},"g":{"widths":{"default":4," ":1},"maxLineLength":40,"numLines":2,"cursorOverlapWidth":0}}}`
 
 type c17Env struct {
 	fonts []string
@@ -128,7 +130,7 @@ func c17NewEnv(dir string) *c17Env {
 }
 
 func (e *c17Env) run(a c17Action) string {
-	res := comp.Compile(c17Inputs[a.Input], comp.Opts{Optimize: a.Opt, LineMarkers: true, Path: "h.pory", FontPath: e.fonts[a.Font], Switches: e.sws[a.Sw], Cmd: e.cmds[a.Cmd]})
+	res := comp.Compile(c17Inputs[a.Input], comp.Opts{Optimize: a.Opt, LineMarkers: true, Path: "h.pory", FontPath: e.fonts[a.Font], FontID: []string{"", "g"}[a.FontID], MaxLen: []int{0, 9}[a.MaxLen], Switches: e.sws[a.Sw], Cmd: e.cmds[a.Cmd]})
 	switch {
 	case res.Panic != "":
 		return "PANIC " + firstLine(res.Panic)
@@ -148,7 +150,14 @@ func c17Actions(reduced bool) []c17Action {
 						if reduced && !((f == s) && (s == c)) {
 							continue
 						}
-						as = append(as, c17Action{i, opt, f, s, c})
+						for fid := 0; fid < 2; fid++ {
+							for ml := 0; ml < 2; ml++ {
+								if reduced && fid != ml {
+									continue
+								}
+								as = append(as, c17Action{i, opt, f, s, c, fid, ml})
+							}
+						}
 					}
 				}
 			}
@@ -377,6 +386,7 @@ func c17Context(r *harness.Run, tier string) {
 
 func runC17(tier string) int {
 	r := harness.NewRun("C17", "model_checking", tier, budget(tier, 55*time.Second, 12*time.Minute))
+	r.HangLimit = 10 * time.Minute // a case of its Parallel loops is a whole worker subprocess
 	dir, err := os.MkdirTemp("", "pmc-c17-")
 	if err != nil {
 		fmt.Println("HARNESS-ERROR: cannot create scratch dir")
@@ -549,5 +559,5 @@ func runC17(tier string) int {
 		"'fresh process' baselines are computed by subprocesses that run exactly one compilation",
 		"context independence compares a statement's emitted section modulo the names of hoisted text / movement labels")
 	return r.Finish(r.Get("evaluations"), r.Get("nontrivial"),
-		"(1) schedules: for every corpus input (many-chunk scripts, label clashes, unknown-font errors against 2- and 3-font configs, all small 'general' programs, optimize on/off) every execution with <= d deviating map-iteration choice points (all n! orders for n <= 4, else reverse, rotations, adjacent transpositions), each run twice; (2) histories: every sequence of <= k compilations over 9 inputs x optimize x 2 font files x 2 switch assignments x 2 command configs sharing the maps, each result compared with the same compilation as first action of a fresh process; (3) every top-level statement of a 6-statement family among every ordered selection of <= m other statements at every position; states/transitions = executions; non-trivial = a deviating schedule, a history of length >= 2 or a context with a neighbour")
+		"(1) schedules: for every corpus input (many-chunk scripts, label clashes, unknown-font errors against 2- and 3-font configs, all small 'general' programs, optimize on/off) every execution with <= d deviating map-iteration choice points (all n! orders for n <= 4, else reverse, rotations, adjacent transpositions), each run twice; (2) histories: every sequence of <= k compilations over 9 inputs x optimize x 2 font files x default font id {config default, -f} x default line length {config, -l} x 2 switch assignments x 2 command configs sharing the maps, each result compared with the same compilation as first action of a fresh process; (3) every top-level statement of a 6-statement family among every ordered selection of <= m other statements at every position; states/transitions = executions; non-trivial = a deviating schedule, a history of length >= 2 or a context with a neighbour")
 }
